@@ -1701,7 +1701,9 @@ class DNA(symbolic.Object):
     metadata = {}
     for k, v in self.metadata.items():
       if k in self._cloneable_metadata_keys:
-        metadata[k] = v
+        # NOTE: the retained values belong to the original: a deep clone gets
+        # copies of them, as it does for every other member.
+        metadata[k] = symbolic.clone(v, deep=True, memo=memo) if deep else v
     # NOTE: the clone of a sealed DNA is sealed already.
     with symbolic.as_sealed(False):
       other.rebind(metadata=metadata)
